@@ -1,13 +1,33 @@
 -------------------------- MODULE GenPropertySteps --------------------------
 (* Complete schedules of PropertySteps, forced on the real code with the gates
-   prop.{set,update}.{validate,save,notify} (harness sub-command c14-gated).
-   "S" lines: [steps |-> <<[a, st, n, ret], ...>>, val, delivered]
-     a  = actor ("m" = a remote client through the mailbox, else a service goroutine)
-     st = start | validate | save | notify | get
+   prop.{set,update}.{validate,save,notify}, signal.update.send,
+   signal.register, signal.unregister, signal.unregister.ack (harness
+   sub-commands c14-gated: coarse emission, no churn; c14-churn: snapshot + one
+   send per subscriber, subscribers leaving / joining / disconnecting meanwhile).
+   "S" lines: [steps |-> <<[a, st, n, ret, s, nx, fe], ...>>, val, delivered, init]
+     a  = who moves: "m" (a remote client through the mailbox), a service
+          goroutine, or a subscriber
+     st = start | validate | save | notify | get           (writers, as in round 1)
+        | snapshot | send                                  (fine emission)
+        | subreq | reg | suback | unsubreq | unreg | unsuback | disc   (subscribers)
      n  = the value written by the call
+     s  = send: the subscriber the event is sent to
+     nx = snapshot / send: the subscriber the emitter is then about to send to
+          ("" = the call returns) - observable at the gate signal.update.send
+     fe = 1 when a send of this emission went to a disconnected subscriber (the
+          pinned code then returns that error from the accepted write:
+          Dev_SendErrorFailsWrite; ret is the conforming result)
      ret = result visible to the caller when the step ends a call
            ([done |-> 0/1, e, sig, bytes]; done = 0: the call is still running)
-   val / delivered: the register and each subscriber's event sequence at the end. *)
+   init = the subscriber table at the start (registration order);
+   val / delivered: the register and each subscriber's event sequence at the end,
+   as this model of the code produces them (compared exactly only where no
+   subscriber moves; otherwise informative);
+   acct = per accepted write [v, by, must, may]: the value, the writer, the
+   subscribers entitled to exactly one event (PropertySteps.stable) and the
+   subscribers allowed to receive one (PropertySteps.may) - the verdict of the
+   churn replay is the accounting against these sets, so that an implementation
+   that treats a leaving / joining subscriber differently is not flagged.        *)
 EXTENDS PropertySteps, Json
 
 VARIABLE hist
@@ -15,19 +35,50 @@ gvars == <<vars, hist>>
 
 NotDone == [done |-> 0, e |-> "", sig |-> "", bytes |-> <<>>]
 Done(r) == [done |-> 1, e |-> r.e, sig |-> r.sig, bytes |-> r.bytes]
-AllDone == /\ \A a \in Actors : pc'[a] = "idle" /\ nops'[a] = MaxOps[a]
+WritersDone(p, k) == \A a \in Actors : p[a] = "idle" /\ k[a] = MaxOps[a]
+AllDone == WritersDone(pc', nops') /\ ms' = ""
+DoneNow == WritersDone(pc, nops) /\ ms = ""
 
+\* the table at the start, recovered from the first state of the behaviour
+VARIABLE init0
+Out == [steps |-> hist', val |-> val', init |-> init0,
+        delivered |-> [s \in Subs |-> Values(s)'],
+        acct |-> [i \in 1..Len(writes') |-> [v |-> writes'[i], by |-> writer'[i],
+                                             must |-> stable'[i], may |-> may'[i]]]]
+
+Rec(a, st, n, r, s, nx, fe) == [a |-> a, st |-> st, n |-> n, ret |-> r, s |-> s, nx |-> nx, fe |-> fe]
 Log(a, st, n, r) ==
-  /\ hist' = Append(hist, [a |-> a, st |-> st, n |-> n, ret |-> r])
-  /\ AllDone => PrintT(<<"S", ToJson([steps |-> hist', val |-> val', delivered |-> delivered'])>>)
+  /\ hist' = Append(hist, Rec(a, st, n, r, "", "", 0))
+  /\ AllDone => PrintT(<<"S", ToJson(Out)>>)
+\* emitter steps: next target / return
+LogEm(a, st, s) ==
+  /\ hist' = Append(hist, Rec(a, st, cur[a], IF pc'[a] = "idle" THEN Done(OK) ELSE NotDone, s, em'[a].tgt,
+                              IF pc'[a] = "idle" /\ (em[a].failed \/ (s # "" /\ cst[s] = "closed")) THEN 1 ELSE 0))
+  /\ AllDone => PrintT(<<"S", ToJson(Out)>>)
+LogSub(s, st) ==
+  /\ hist' = Append(hist, Rec(s, st, 0, NotDone, s, "", 0))
+  /\ AllDone => PrintT(<<"S", ToJson(Out)>>)
 
-GInit == Init /\ hist = <<>>
+\* the churn schedules write every value once: an event then identifies its write
+Fresh(n) == Atomic \/ \A i \in 1..Len(writes) : writes[i] # I32(n)
+GInit == Init /\ hist = <<>> /\ init0 = [i \in 1..Len(table) |-> table[i].s]
 GNext ==
-  \/ \E a \in Actors : \E n \in ValuesOf[a] : Start(a, n) /\ Log(a, "start", n, NotDone)
-  \/ \E a \in Actors : Validate(a) /\ Log(a, "validate", cur[a],
-                                         IF ValidatorOK(cur[a]) THEN NotDone ELSE Done(Err))
-  \/ \E a \in Actors : Save(a) /\ Log(a, "save", cur[a], NotDone)
-  \/ \E a \in Actors : Notify(a) /\ Log(a, "notify", cur[a], Done(OK))
-  \/ Get /\ Log("m", "get", 0, Done(ret'))
-GSpec == GInit /\ [][GNext]_gvars
+  /\ ~DoneNow
+  /\ UNCHANGED init0
+  /\ \/ \E a \in Actors : \E n \in ValuesOf[a] : Start(a, n) /\ Fresh(n) /\ Log(a, "start", n, NotDone)
+     \/ \E a \in Actors : Validate(a) /\ Log(a, "validate", cur[a],
+                                            IF ValidatorOK(cur[a]) THEN NotDone ELSE Done(Err))
+     \/ \E a \in Actors : Save(a) /\ Log(a, "save", cur[a], NotDone)
+     \/ \E a \in Actors : Notify(a) /\ Log(a, "notify", cur[a], Done(OK))
+     \/ \E a \in Actors : Snapshot(a) /\ LogEm(a, "snapshot", "")
+     \/ \E a \in Actors : Send(a) /\ LogEm(a, "send", em[a].tgt)
+     \/ Get /\ Log("m", "get", 0, Done(ret'))
+     \/ \E s \in Subs : SubReq(s) /\ LogSub(s, "subreq")
+     \/ Register /\ LogSub(ms, "reg")
+     \/ SubAck /\ LogSub(ms, "suback")
+     \/ \E s \in Subs : UnsubReq(s) /\ LogSub(s, "unsubreq")
+     \/ Unregister /\ LogSub(ms, "unreg")
+     \/ UnsubAck /\ LogSub(ms, "unsuback")
+     \/ \E s \in Subs : Disconnect(s) /\ LogSub(s, "disc")
+GSpec == GInit /\ [][GNext]_<<gvars, init0>>
 =============================================================================
